@@ -137,6 +137,7 @@ class Run:
         self.outside = []
         self.stats = dict(queries=0, sat=0, unsat=0, unknown=0, solver_s=0.0, paths=0, aborted=0)
         self.canaries = []
+        self.cross_setup()
 
     # -- recording
     def want(self, name):
@@ -181,8 +182,52 @@ class Run:
         for i in res.get('inconclusive', []):
             self.inconc(i)
 
+    # -- cross-solver sample (thorough tier): re-decide a deterministic sample of the discharged queries with
+    #    /usr/bin/z3 (4.8.12) and cvc5; disagreement or an `(error` line makes the run inconclusive
+    def cross_setup(self):
+        if self.tier != 'thorough' and not os.environ.get('VERIF_CROSS'):
+            return
+        import shutil
+        from lib import symx
+        d = os.path.join(VERIF, 'scratch', 'cross', self.pid)
+        shutil.rmtree(d, ignore_errors=True)
+        os.makedirs(d, exist_ok=True)
+        symx.CROSS_DIR = d
+        self._cross_dir = d
+
+    def cross_check(self):
+        d = getattr(self, '_cross_dir', None)
+        if d is None:
+            return
+        import glob
+        import subprocess
+        files = sorted(glob.glob(os.path.join(d, '*.smt2')))[:60]
+        out = dict(files=len(files), agree_z3_4_8=0, agree_cvc5=0, undecided_z3_4_8=0, undecided_cvc5=0, disagree=0)
+        for f in files:
+            exp = open(f).readline().split(':')[1].strip()
+            for name, cmd in (('z3_4_8', ['/usr/bin/z3', '-T:20', f]), ('cvc5', ['cvc5', '--tlimit=20000', f])):
+                try:
+                    o = subprocess.run(cmd, capture_output=True, text=True, timeout=40).stdout
+                except Exception:
+                    o = 'timeout'
+                first = (o.strip().splitlines() or ['?'])[0].strip()
+                if '(error' in o and first not in ('sat', 'unsat'):
+                    out['undecided_' + name] += 1
+                elif first in ('sat', 'unsat'):
+                    if first == exp:
+                        out['agree_' + name] += 1
+                    else:
+                        out['disagree'] += 1
+                        self.inconc('solver disagreement on %s: z3 5.1 says %s, %s says %s' % (os.path.basename(f), exp, name, first))
+                else:
+                    out['undecided_' + name] += 1
+        self.sections['cross_solver_sample'] = out
+        import shutil
+        shutil.rmtree(d, ignore_errors=True)
+
     # -- finishing
     def finish(self, explanation, rule):
+        self.cross_check()
         wall = time.time() - self.t0
         for key, msg in sorted(self.known_hit.items()):
             print('KNOWN-FINDING: property=%s %s [%s]' % (self.pid, key, msg))
